@@ -41,10 +41,16 @@ type mstate struct {
 	fee      int64
 	blocked  map[string]bool // same keys as bal
 	deployed [nTiny]bool
+	xfers    []xfer // kept GAS transfers, in order
+}
+
+type xfer struct {
+	from, to string
+	n        int64
 }
 
 func (s *mstate) clone() *mstate {
-	c := &mstate{notes: slices.Clone(s.notes), bal: maps.Clone(s.bal), fee: s.fee, blocked: maps.Clone(s.blocked), deployed: s.deployed}
+	c := &mstate{xfers: slices.Clone(s.xfers), notes: slices.Clone(s.notes), bal: maps.Clone(s.bal), fee: s.fee, blocked: maps.Clone(s.blocked), deployed: s.deployed}
 	for _, m := range s.stor {
 		c.stor = append(c.stor, maps.Clone(m))
 	}
@@ -52,7 +58,7 @@ func (s *mstate) clone() *mstate {
 }
 
 func (s *mstate) equal(o *mstate) bool {
-	if s.fee != o.fee || s.deployed != o.deployed || !slices.Equal(s.notes, o.notes) || !maps.Equal(s.bal, o.bal) || !maps.Equal(s.blocked, o.blocked) {
+	if s.fee != o.fee || s.deployed != o.deployed || !slices.Equal(s.notes, o.notes) || !slices.Equal(s.xfers, o.xfers) || !maps.Equal(s.bal, o.bal) || !maps.Equal(s.blocked, o.blocked) {
 		return false
 	}
 	for i := range s.stor {
@@ -403,6 +409,7 @@ func (m *model) transfer(n *nop, fr *frame) result {
 	key, h := m.targetKeyHash(n)
 	st.bal[from] -= n.n
 	st.bal[key] += n.n
+	st.xfers = append(st.xfers, xfer{from, key, n.n})
 	m.note(nativehashes.GasToken, "Transfer", bs(m.hashes[fr.c].BytesBE()), bs(h.BytesBE()), fmt.Sprintf("int:%d", n.n))
 	if n.tgt == nil {
 		return rOK
